@@ -24,7 +24,7 @@ pub fn info() -> PropInfo {
     PropInfo {
         id: "C11",
         level: "exploration",
-        rule: "Five streams. `cat`: complete enumeration of 64 encodings (versions 2-5 x Dwarf32/64 x address sizes 1/2/4/8 x both byte orders) x every write::AttributeValue variant (40, incl. DebugInfoRef::Symbol) x 4 payload variants (boundary values), the attribute placed on an entry that precedes a referenced entry (UnitRef from the root, DebugInfoRef from a second unit, sibling pointers on), written with Dwarf::write, and for variants that do not need a second unit also with DwarfUnit::write. `rand`: seeded models of 1-4 units (independent encodings, shared byte order), trees of 1-200 entries (flat / chain / bushy shapes), entries created through add or reserve..add_reserved (reserved at an earlier step), reserved-never-added ids, optional deleted sub-tree, DW_TAG_base_type entries anywhere among the root's children, sibling flags, 0-18 attributes per entry drawn from all 40 value kinds with boundary payloads (attribute names chosen so that the reader's interpretation is defined), references forward/backward/self/cross-unit, attribute expressions (30 operation builders incl. typed ULEB references to earlier entries, call4, call_ref, implicit_pointer, entry_value, skip/bra) and location-list expressions (ULEB references in both directions), 0-3 range and 0-3 location lists per unit incl. exact duplicates and shared use, .debug_str/.debug_line_str pools with duplicates, optional line program (1-5 files, 1-2 sequences, string forms inline/strp/line_strp in v5, format possibly differing from the unit's); 25% of the cases get one injected unencodable item (address or offset too large for its field, 256-byte typed constant, forward ULEB reference, reference to a deleted entry, LineProgramRef without program, DebugInfoRef::Symbol, unit version 1/6, symbolic address with the plain writer). Every case is written into Sections<EndianVec>; the Ok/Err outcome is compared with the model's classification; on Ok the sections are read back with read::Dwarf and compared: unit headers, forest (tag, depth, order incl. base types first), attribute names, raw and normalised values, references by identity of the target entry, sibling pointers (next sibling or the parent's null entry), strings through attr_string, lists through attr_ranges/attr_locations (expression bytes from the harness encoder), DW_AT_stmt_list and LineProgramRef through the unit's line program (files and rows), FileIndex through the line header. `shape` (abbreviation sharing): enumeration of 64 encodings x 39 value kinds x run lengths 2-6 (quick: one run length per encoding and kind, all five for ImplicitConst; thorough: all, three seeds each): under one parent a run of 2-6 sibling entries of identical shape (tag, no children, attribute names and forms: identity, the kind under test, an ImplicitConst, sometimes a fourth attribute, in a seeded order) with pairwise different values of the kind under test and pairwise different constants, plus an exact duplicate, an entry with the same constant but another main value and one with the same main value but another constant; mixed in (contiguous or shuffled) 1-2 entries for each of seven near misses that differ from the run in exactly one shape component (tag only, children flag only, sibling attribute only, one form only, attribute order only, one attribute name only, attribute count) and partly repeat the run's values; 2-3 cousins of the run plus near misses under a second parent of the same shape; a referenced entry after all of them; every sixteenth case puts 130 entries of pairwise different shape first so that the run gets two-byte abbreviation codes; one third of the cases has a second unit (half of them of another version) built the same way with other values and references in both directions. These cases are written with Dwarf::write and judged by the same read-back oracle (a merged abbreviation shows as a wrong constant, tag, nesting or attribute list); the number of abbreviation declarations is compared with the model's number of distinct shapes only as a secondary observation. `ordcat` and `order` (write order): a model M that the converter maps back to the same request (see assumptions) is written with Dwarf::write into S0, S0 is verified against M, then S0 is read and re-emitted through write::Dwarf::convert -> read_unit -> ConvertUnit::convert with ConvertUnit::write called for a subset of the units right after their conversion and Dwarf::write at the end, once per subset policy {none, all, first only, last only, even positions, odd positions, seeded random subset} (identical subsets once); the final sections of every policy are verified against the same M with the same oracle (forest, attribute meanings, every reference by identity of the target incl. cross-unit DebugInfoRef in both directions and references from attribute expressions and location-list expressions in .debug_loc and .debug_loclists, strings, lists, line programs), the units being expected in .debug_info in the order incrementally written units first; a write error on this path is a violation, a converter error skips the case. `ordcat` enumerates 64 encodings x 4 variants of a fixed three-unit model (units of different version and format, every unit refers to both others from an attribute, an attribute expression and a location list); `order` uses seeded models of 2-4 units (1 in 12% of the cases) with additional cross-unit references. A case is non-trivial when it has at least 2 entries or one non-identity attribute; distinct cases are counted by a digest of the complete case description.",
+        rule: "Five streams. `cat`: complete enumeration of 64 encodings (versions 2-5 x Dwarf32/64 x address sizes 1/2/4/8 x both byte orders) x every write::AttributeValue variant (40, incl. DebugInfoRef::Symbol) x 4 payload variants (boundary values), the attribute placed on an entry that precedes a referenced entry (UnitRef from the root, DebugInfoRef from a second unit, sibling pointers on), written with Dwarf::write, and for variants that do not need a second unit also with DwarfUnit::write. `rand`: seeded models of 1-4 units (independent encodings, shared byte order), trees of 1-200 entries (flat / chain / bushy shapes), entries created through add or reserve..add_reserved (reserved at an earlier step), reserved-never-added ids, optional deleted sub-tree, DW_TAG_base_type entries anywhere among the root's children, sibling flags, 0-18 attributes per entry drawn from all 40 value kinds with boundary payloads (attribute names chosen so that the reader's interpretation is defined), references forward/backward/self/cross-unit, attribute expressions (30 operation builders incl. typed ULEB references to earlier entries, call4, call_ref, implicit_pointer, entry_value, skip/bra) and location-list expressions (ULEB references in both directions), 0-3 range and 0-3 location lists per unit incl. exact duplicates and shared use, .debug_str/.debug_line_str pools with duplicates, optional line program (1-5 files, 1-2 sequences, string forms inline/strp/line_strp in v5, format possibly differing from the unit's); 25% of the cases get one injected unencodable item (address or offset too large for its field, 256-byte typed constant, forward ULEB reference, reference to a deleted entry, LineProgramRef without program, DebugInfoRef::Symbol, unit version 1/6, symbolic address with the plain writer). Every case is written into Sections<EndianVec>; the Ok/Err outcome is compared with the model's classification; on Ok the sections are read back with read::Dwarf and compared: unit headers, forest (tag, depth, order incl. base types first), attribute names, raw and normalised values, references by identity of the target entry, sibling pointers (next sibling or the parent's null entry), strings through attr_string, lists through attr_ranges/attr_locations (expression bytes from the harness encoder), DW_AT_stmt_list and LineProgramRef through the unit's line program (files and rows), FileIndex through the line header. `shape` (abbreviation sharing): enumeration of 64 encodings x 39 value kinds x run lengths 2-6 (quick: one run length per encoding and kind, all five for ImplicitConst; thorough: all, three seeds each): under one parent a run of 2-6 sibling entries of identical shape (tag, no children, attribute names and forms: identity, the kind under test, an ImplicitConst, sometimes a fourth attribute, in a seeded order) with pairwise different values of the kind under test and pairwise different constants, plus an exact duplicate, an entry with the same constant but another main value and one with the same main value but another constant; mixed in (contiguous or shuffled) 1-2 entries for each of seven near misses that differ from the run in exactly one shape component (tag only, children flag only, sibling attribute only, one form only, attribute order only, one attribute name only, attribute count) and partly repeat the run's values; 2-3 cousins of the run plus near misses under a second parent of the same shape; a referenced entry after all of them; every sixteenth case puts 130 entries of pairwise different shape first so that the run gets two-byte abbreviation codes; one third of the cases has a second unit (half of them of another version) built the same way with other values and references in both directions. These cases are written with Dwarf::write and judged by the same read-back oracle (a merged abbreviation shows as a wrong constant, tag, nesting or attribute list); the number of abbreviation declarations is compared with the model's number of distinct shapes only as a secondary observation. `ordcat` and `order` (write order): a model M that the converter maps back to the same request (see assumptions) is written with Dwarf::write into S0, S0 is verified against M, then S0 is read and re-emitted through write::Dwarf::convert -> read_unit -> ConvertUnit::convert with ConvertUnit::write called for a subset of the units right after their conversion and Dwarf::write at the end, once per subset policy {none, all, first only, last only, even positions, odd positions, seeded random subset} (identical subsets once); the final sections of every policy are verified against the same M with the same oracle (forest, attribute meanings, every reference by identity of the target incl. cross-unit DebugInfoRef in both directions and references from attribute expressions and location-list expressions in .debug_loc and .debug_loclists, strings, lists, line programs), the units being expected in .debug_info in the order incrementally written units first; a write error on this path is a violation, a converter error skips the case. Each such model is also re-emitted once with one seeded unit dropped through ConvertUnit::skip and the others written late, incrementally or mixed: when nothing refers to the dropped unit the result must read back as M without that unit, when something does the request is unencodable and Ok is a violation (a refusal is expected; the pinned tree panics instead, see assumptions). `ordcat` enumerates 64 encodings x 4 variants of a fixed three-unit model (units of different version and format, every unit refers to both others from an attribute, an attribute expression and a location list); `order` uses seeded models of 2-4 units (1 in 12% of the cases) with additional cross-unit references. A case is non-trivial when it has at least 2 entries or one non-identity attribute; distinct cases are counted by a digest of the complete case description.",
         assumptions: &[
             "forms newer than the unit version (data16, line_strp, strp_sup, ref_sup in v2-4) are written by the pinned tree and read back fine; they are classified encodable because the output is neither corrupt nor ambiguous",
             "the chosen DW_FORM is only a secondary observation (secondary.form_differs), the verdict is on the read-back meaning",
@@ -35,6 +35,7 @@ pub fn info() -> PropInfo {
             "DwarfUnit::write is used for single-unit cases without cross-unit references (the API hands out no UnitId)",
             "incremental per-unit writing is only reachable through the conversion API, so the write-order streams re-emit sections that Dwarf::write produced; their models are restricted to requests the converter maps back unchanged (no raw expression bytes, no DW_OP_piece size >= 2^60, no DW_OP_deref_size of the address size, constants only under DW_AT_const_value / discr_value / alignment / vendor names, expressions only under names the reader treats as expressions in versions 2-3 and not DW_AT_vtable_elem_location, no sibling flag on the root, no line sequence without rows, no version 5 FileIndex without a line program, no symbolic addresses, no injected unencodable item); whether the converter is faithful outside that subset is C12's question; a ConvertError skips the case (order.convert_err)",
             "with incremental writes the units are expected in .debug_info in the order they were written (incrementally written units first, in conversion order, then the others)",
+            "open finding, skipped by exact signature (c11_order.rs SKIP_KNOWN_PANIC_REF_TO_SKIPPED_UNIT, counted as order.skip.known_panic, GV_C11_STRICT=1 reports it): a reference to an entry of a unit dropped with ConvertUnit::skip makes Dwarf::write panic (index out of bounds in UnitOffsets::debug_info_offset, src/write/unit.rs) instead of returning Error::InvalidReference",
             "abbreviation sharing itself is not demanded: the number of declarations per table is a secondary observation (abbrev.count_as_model / secondary.abbrev_count_differs)",
             "String payloads are NUL-free, Unit::reserve ids used in references are always added later (documented preconditions)",
         ],
@@ -83,6 +84,7 @@ const MUST: &[&str] = &[
     "order.xref.loc.inc_to_later_inc", "order.xref.loc.inc_to_earlier_inc", "order.xref.loc.inc_to_late", "order.xref.loc.late_to_inc", "order.xref.loc.late_to_late",
     "order.xref.loclists.inc_to_later_inc", "order.xref.loclists.inc_to_earlier_inc", "order.xref.loclists.inc_to_late", "order.xref.loclists.late_to_inc", "order.xref.loclists.late_to_late",
     "order.selfref.attr.inc", "order.selfref.expr.inc", "order.selfref.loc.inc", "order.selfref.loclists.inc",
+    "order.skip.verified", "order.skip.others_late", "order.skip.others_incremental", "order.skip.others_mixed",
 ];
 
 // ================================================================ sections
